@@ -197,16 +197,15 @@ func (s *scen) Key() string {
 
 func mkOps(cfg Config) []opDef {
 	var ops []opDef
-	bs := map[uint32]bool{1: true, 2: true, 1 << 31: true, 1<<32 - 1: true, 1<<32 - 2: true}
+	// 0 is a legal batch count: such an entry needs no capacity but is in flight until it is exited
+	bs := map[uint32]bool{0: true, 1: true, 2: true, 1 << 31: true, 1<<32 - 1: true, 1<<32 - 2: true}
 	for _, n := range append(append([]uint32{}, cfg.A...), cfg.B...) {
 		bs[n] = true
 		bs[n+1] = true
 	}
 	var list []uint32
 	for b := range bs {
-		if b != 0 {
-			list = append(list, b)
-		}
+		list = append(list, b)
 	}
 	// deterministic order, simplest first
 	for i := 0; i < len(list); i++ {
